@@ -2396,7 +2396,10 @@ class ArrayProxy(ValueCastable):
     def shape(self):
         # The shape of the proxy must be such that it preserves the mathematical value of the array
         # elements. I.e., shape-wise, an array proxy must be identical to an equivalent mux tree.
-        return Shape._unify(elem.shape() for elem in self._iter_as_values())
+        # Elements that the index cannot address are not part of that mux tree (see `as_value()`).
+        return Shape._unify(Value.cast(elem).shape()
+                            for index, elem in enumerate(self.elems)
+                            if index in range(1 << len(self._index)))
 
     def as_value(self):
         return SwitchValue(
